@@ -122,6 +122,37 @@ def struct_program(rng):
         v = rng.choice(names)
         return "v" + v, v, False, None
 
+    def tree(d, force):
+        if d == 0 or (not force and rng.random() < 0.3):
+            t, s_, c, n = atom()
+            return ["A", t], s_, True, (c, n, t)
+        ku = rng.random()
+        if ku < 0.3:
+            # stage 11: a shift by a literal 0..7, `~(e)` (= e ^ 255) and `-(e)` (= 0 - e) of a non-constant operand
+            while True:
+                st_, ss_, sa, si = tree(d - 1, False)
+                if not (sa and si[0]):
+                    break
+            inner = ss_ if sa else "(%s)" % ss_
+            if ku < 0.18:
+                left = rng.random() < 0.5; kk = rng.choice([0, 1, 1, 2, 3, 4, 7])
+                return ["S", "l" if left else "r", str(kk)] + st_, "%s %s %d" % (inner, "<<" if left else ">>", kk), False, (False, None, "")
+            if ku < 0.24:
+                return ["B", "xor"] + st_ + ["A", "c255"], "~%s" % inner, False, (False, None, "")
+            return ["B", "sub", "A", "c0"] + st_, "-%s" % inner, False, (False, None, "")
+        while True:
+            o = rng.choice(OPS)
+            lt_, ls_, la, li = tree(d - 1, False)
+            rt_, rs_, ra_, ri = tree(d - 1, False)
+            if la and ra_:
+                if li[0] and ri[0]:
+                    continue        # constant ∘ constant is folded: not a computation
+                if o[0] == "or" and ((li[2].startswith("r") and ri[1] == 0) or (ri[2].startswith("r") and li[1] == 0)):
+                    continue        # `X | 0`
+            break
+        return (["B", o[0]] + lt_ + rt_, "%s %s %s" % (ls_ if la else "(%s)" % ls_, o[1], rs_ if ra_ else "(%s)" % rs_),
+                False, (False, None, ""))
+
     def lvalue():
         if regs_assignable and rng.random() < 0.3:
             r_ = rng.choice("XY")
@@ -169,36 +200,6 @@ def struct_program(rng):
         if k < 0.70 and k >= 0.66:
             # stage 10: an expression tree — both operands of an operator may be compound, so that the generator
             # spills (PHA … STA cctmp ; PLA) or gives up ("Code too complex": then the port must say `outside`)
-            def tree(d, force):
-                if d == 0 or (not force and rng.random() < 0.3):
-                    t, s_, c, n = atom()
-                    return ["A", t], s_, True, (c, n, t)
-                ku = rng.random()
-                if ku < 0.3:
-                    # stage 11: a shift by a literal 0..7, `~(e)` (= e ^ 255) and `-(e)` (= 0 - e) of a non-constant operand
-                    while True:
-                        st_, ss_, sa, si = tree(d - 1, False)
-                        if not (sa and si[0]):
-                            break
-                    inner = ss_ if sa else "(%s)" % ss_
-                    if ku < 0.18:
-                        left = rng.random() < 0.5; kk = rng.choice([0, 1, 1, 2, 3, 4, 7])
-                        return ["S", "l" if left else "r", str(kk)] + st_, "%s %s %d" % (inner, "<<" if left else ">>", kk), False, (False, None, "")
-                    if ku < 0.24:
-                        return ["B", "xor"] + st_ + ["A", "c255"], "~%s" % inner, False, (False, None, "")
-                    return ["B", "sub", "A", "c0"] + st_, "-%s" % inner, False, (False, None, "")
-                while True:
-                    o = rng.choice(OPS)
-                    lt_, ls_, la, li = tree(d - 1, False)
-                    rt_, rs_, ra_, ri = tree(d - 1, False)
-                    if la and ra_:
-                        if li[0] and ri[0]:
-                            continue        # constant ∘ constant is folded: not a computation
-                        if o[0] == "or" and ((li[2].startswith("r") and ri[1] == 0) or (ri[2].startswith("r") and li[1] == 0)):
-                            continue        # `X | 0`
-                    break
-                return (["B", o[0]] + lt_ + rt_, "%s %s %s" % (ls_ if la else "(%s)" % ls_, o[1], rs_ if ra_ else "(%s)" % rs_),
-                        False, (False, None, ""))
             kc = rng.random()
             if kc < 0.12:
                 # `lv <<= k` / `lv >>= k`: generate_shift on the target, then the assignment — the tree `lv << k`
@@ -272,6 +273,10 @@ def struct_program(rng):
                 first = False
             if first:
                 toks_ = ["B", "and"] + toks_ + ["A", "c127"]; text = "%s & 127" % text
+            if rng.random() < 0.3:
+                # stage 13: any tree the generator accepts (it may spill: the condition then leaves the scratch cell and
+                # the stack page changed)
+                toks_, text, _, _ = tree(rng.randint(1, 2), True)
             j = rng.random()
             if j < 0.2:
                 return ["te:" + ":".join(toks_)], "(%s)" % text
@@ -279,6 +284,12 @@ def struct_program(rng):
                 return ["not", "te:" + ":".join(toks_)], "!(%s)" % text
             o = rng.choice(COPS)
             ordered = o[0] not in ("eq", "ne")
+            if use_regs and rng.random() < 0.3:
+                # stage 13: against X / Y (`STA cctmp ; CPX cctmp`)
+                r_ = rng.choice("XY")
+                if rng.random() < 0.6:
+                    return ["cmpr:%s:r%s:L:%s" % (o[0], r_, ":".join(toks_))], "(%s) %s %s" % (text, o[1], r_)
+                return ["cmpr:%s:r%s:R:%s" % (o[0], r_, ":".join(toks_))], "%s %s (%s)" % (r_, o[1], text)
             tb, sb, cb, nb = memop(nonzero=ordered)
             if rng.random() < 0.7:
                 return ["cmpe:%s:%s:L:%s" % (o[0], tb, ":".join(toks_))], "(%s) %s %s" % (text, o[1], sb)
@@ -434,7 +445,10 @@ def run(chk):
         chk.count("struct_programs")
         nexpr = sum(1 for t in toks if t.startswith("expr:"))
         chk.count("struct_tree_statements", nexpr)
-        chk.count("struct_tree_conditions", sum(1 for t in toks if t.startswith("cmpe:") or t.startswith("te:")))
+        ncondt = sum(1 for t in toks if t.startswith("cmpe:") or t.startswith("te:") or t.startswith("cmpr:"))
+        chk.count("struct_tree_conditions", ncondt)
+        chk.count("struct_tree_register_compares", sum(1 for t in toks if t.startswith("cmpr:")))
+        nexpr += ncondt
         if nexpr and ma == "outside":
             # the port says the generator gives up on one of the trees: the real compiler must say so too
             if r["status"] == "err" and "too complex" in unhx(r["err"]["msg"]).lower():
